@@ -72,9 +72,16 @@ def _gen(g):
     if g.chance(20):
         typed = g.bool()
         pool = [0, 1, 2, 3] + (([4, 5] if typed else [g.choice([4, 5])]) if g.bool() else [])
-        return {"kind": "seq", "maxsize": g.choice([None, 0, 1, 2, 3]), "typed": typed,
+        case = {"kind": "seq", "maxsize": g.choice([None, 0, 1, 2, 3]), "typed": typed,
                 "keys": [g.choice(pool) for _ in range(g.int(1, 16))],
                 "kw": [g.chance(30) for _ in range(16)]}
+        v = g.weighted([(70, "lru"), (12, "cache"), (18, "method")])
+        if v == "cache":
+            case.update(deco="cache", maxsize=None, typed=False)
+            case["keys"] = [4 if k == 5 else k for k in case["keys"]]     # (1 and 1.0 are not mixed when untyped)
+        elif v == "method":
+            case["inst"] = [g.int(0, 1) for _ in range(8)]
+        return case
     if g.chance(6):
         # targeted shape (ttl): a cached result expires, one caller starts the refresh, others queue behind it, and the
         # refresh fails or is cancelled
@@ -136,17 +143,51 @@ def run_seq(case, out):
         calls[0] += 1
         return ("ref", calls[0])
 
+    deco = case.get("deco", "lru")
+    if deco == "cache":
+        ref = functools.cache(ref.__wrapped__)
+    insts = case.get("inst")
+
+    class RefHolder:
+        @functools.lru_cache(maxsize=maxsize, typed=typed)
+        def m(self, k):
+            calls[0] += 1
+            return ("ref", calls[0])
+
     async def main(loop):
         execs = [0]
 
-        @lru_cache(maxsize=maxsize, typed=typed)
-        async def fn(k):
+        async def impl(k):
             execs[0] += 1
             return ("tok", execs[0])
 
+        fn = anyio.functools.cache(impl) if deco == "cache" else lru_cache(maxsize=maxsize, typed=typed)(impl)
+
+        class Holder:
+            @lru_cache(maxsize=maxsize, typed=typed)
+            async def m(self, k):
+                execs[0] += 1
+                return ("tok", execs[0])
+
+        rh, ah = [RefHolder(), RefHolder()], [Holder(), Holder()]
         for i, ki in enumerate(case["keys"]):
             k = KEYS[ki]
             c0, e0 = calls[0], execs[0]
+            if insts:
+                # decorated METHOD: the instance is part of the key, the cache is shared by all instances
+                j = insts[i % len(insts)]
+                rh[j].m(k)
+                await ah[j].m(k)
+                if (calls[0] - c0) != (execs[0] - e0):
+                    out.bad("c20:seq-differential", "method:executed-vs-served",
+                            f"{case}: call #{i} instance {j} key {k!r}: stdlib executed={calls[0] - c0} anyio "
+                            f"executed={execs[0] - e0}")
+                    return
+                ri, ai = RefHolder.m.cache_info(), Holder.m.cache_info()
+                if (ri.hits, ri.misses, ri.currsize) != (ai.hits, ai.misses, ai.currsize):
+                    out.bad("c20:seq-differential", "method:cache_info", f"{case}: after call #{i}: stdlib {ri} anyio {ai}")
+                    return
+                continue
             if case.get("kw") and case["kw"][i % len(case["kw"])]:
                 ref(k=k)
                 await fn(k=k)
